@@ -317,14 +317,16 @@ def _work(req):
     if pm is not None:
         out['parsed'] = True
         out['pm'], out['types'] = _pm_record(pm)
-        out['obj'] = _call(lambda: midi_io.midi_to_note_sequence(pm))
+        obj = _call(lambda: midi_io.midi_to_note_sequence(pm))
+        out['obj'] = 'same' if obj == out['res'] else obj
         del pm
     if req['input'].get('file'):
         fd, path = tempfile.mkstemp(prefix='c16-', suffix='.mid')
         try:
             with os.fdopen(fd, 'wb') as f:
                 f.write(data)
-            out['file'] = _call(lambda: midi_io.midi_file_to_note_sequence(path))
+            fres = _call(lambda: midi_io.midi_file_to_note_sequence(path))
+            out['file'] = 'same' if fres == out['res'] else fres
         finally:
             try:
                 os.unlink(path)
@@ -402,6 +404,11 @@ class Worker(object):
                                   stdin=subprocess.PIPE, stdout=subprocess.PIPE, stderr=subprocess.DEVNULL,
                                   env=dict(os.environ), bufsize=0)
         self.buf = b''
+        pr = self._roundtrip({'op': 'probe'}, 120.0)
+        if 'probe' not in pr:
+            self.stop()
+            raise RuntimeError('C16 worker cannot start (note_seq / pretty_midi import failed?): %r' % (pr,))
+        _STATS['probe'] = pr
 
     def stop(self):
         if self.p is not None:
@@ -421,7 +428,9 @@ class Worker(object):
         if self.p is None or self.p.poll() is not None:
             self.stop()
             self.start()
-            timeout += 30  # import time
+        return self._roundtrip(req, timeout)
+
+    def _roundtrip(self, req, timeout):
         try:
             self.p.stdin.write((json.dumps(req) + '\n').encode())
             self.p.stdin.flush()
@@ -452,9 +461,23 @@ _SINGLE = [None]
 _STATS = {'probe': None}
 
 
+_GENS = {}
+
+
+def _gen_class(c):
+    g = c.get('gen', '?')
+    for pre in ('corpus', 'bigtick', 'sweep'):
+        if g.startswith(pre):
+            return pre + ('-pm' if c['op'] == 'pm' else '')
+    return g
+
+
 def _register(cs):
     for c in cs:
-        _PENDING.setdefault(case_key(c), c)
+        k = case_key(c)
+        if k not in _PENDING and k not in _CACHE:
+            _GENS[_gen_class(c)] = _GENS.get(_gen_class(c), 0) + 1
+        _PENDING.setdefault(k, c)
     return cs
 
 
@@ -472,12 +495,11 @@ def _run_batch():
         q.put(kc)
     lock = threading.Lock()
 
+    errors = []
+
     def loop(first):
         w = Worker()
         try:
-            if first:
-                pr = w.call({'op': 'probe'})
-                _STATS['probe'] = pr
             while True:
                 try:
                     k, c = q.get_nowait()
@@ -486,6 +508,8 @@ def _run_batch():
                 r = w.call({'op': c['op'], 'input': c['input']})
                 with lock:
                     _CACHE[k] = r
+        except Exception as e:  # noqa: reported by the caller (fail closed)
+            errors.append(e)
         finally:
             w.stop()
 
@@ -495,6 +519,8 @@ def _run_batch():
         t.start()
     for t in ts:
         t.join()
+    if errors:
+        raise errors[0]
 
 
 def _response(case):
@@ -546,7 +572,7 @@ def gen_coq():
         if got != ty:
             raise TypeError('music.proto: %s.%s has cpp_type %r, model assumes %r' % (msg.DESCRIPTOR.name, fld, got, ty))
     keys = NS.KeySignature.Key.values()
-    if sorted(keys) != list(range(12)):
+    if sorted(set(keys)) != list(range(12)):
         raise TypeError('KeySignature.Key enum is not 0..11: %r' % (keys,))
     s = G.HEADER
     s += G.defz('INT32_MIN', INT32_MIN)
@@ -990,19 +1016,32 @@ def corpus():
     return _register(cs)
 
 
+def sweeps(rng, complete):
+    """Exhaustive small scopes: every header division value, every key-signature payload (sf, mi), every
+    time-signature (numerator, log2 denominator), every meta type x payload length 0..6."""
+    T = lambda ev, div=480: assemble({'fmt': 1, 'ntrk': 1, 'div': div, 'tracks': [track_bytes(ev)]})
+    note = [(3, bytes([0x90, 60, 64])), (5, bytes([0xb0, 7, 1])), (4, bytes([0x80, 60, 0]))]
+    tempo = [(7, meta(0x51, b'\x06\x00\x00'))]
+    out = []
+    pick = (lambda xs, k: xs) if complete else (lambda xs, k: rng.sample(xs, k))
+    for div in pick(range(65536), 60):
+        out.append(_bcase(T(tempo + (note if div % 2 else []), div=div), 'sweep-division'))
+    for v in pick(range(65536), 60):
+        out.append(_bcase(T([(0, meta(0x59, bytes([v >> 8, v & 255])))] + (note if v % 7 == 0 else [])), 'sweep-keysig'))
+    for v in pick(range(65536), 60):
+        out.append(_bcase(T([(v % 3, meta(0x58, bytes([v >> 8, v & 255, 24, 8])))]), 'sweep-timesig'))
+    for v in pick(range(128 * 7), 30):
+        t, ln = v // 7, v % 7
+        out.append(_bcase(T([(1, meta(t, bytes([(t * 37 + k * 11) & 255 for k in range(ln)])))] + note), 'sweep-meta-len'))
+    return out
+
+
 def cases(rng, tier, n=None):
     thorough = tier == 'thorough'
-    N = n if n is not None else (24000 if thorough else 1500)
+    N = n if n is not None else (60000 if thorough else 12000)
     cs = []
     seeds = []
 
-    def seed():
-        r = rng.random()
-        if r < 0.5 or not seeds:
-            f = synth(rng)
-            seeds.append(assemble(f))
-            return f
-        return None
     npm = N // 5
     nb = N - npm
     fx = fixtures()
@@ -1057,6 +1096,8 @@ def cases(rng, tier, n=None):
             cs.append(_bcase(assemble({'fmt': 0, 'ntrk': 1, 'div': 480, 'tracks': [track_bytes(ev)]}), 'bigtick-%d' % tk))
     for i in range(npm):
         cs.append({'op': 'pm', 'gen': 'pm-wild' if i % 3 else 'pm-valid', 'input': gen_pm(rng, wild=bool(i % 3))})
+    # small-scope sweeps on the implementation side: complete in thorough, sampled in quick
+    cs += sweeps(rng, thorough)
     if n is not None:
         cs = cs[:n] if n < len(cs) else cs
     return _register(cs)
@@ -1096,42 +1137,58 @@ def model_output(case, out):
     return ['PARSED', [rb, tb, ib], r]
 
 
+def _statement(res, gen, op, neg_res, variant):
+    """The property's statement on one call result: MIDIConversionError or a well-formed NoteSequence."""
+    if res[0] == 'EXC' and res[1] != 'MIDIConversionError':
+        return {'kind': 'foreign-exception', 'exception': res[1], 'message': res[2], 'gen': gen, 'op': op, 'variant': variant}
+    if res[0] == 'OK' and res[2]:
+        return {'kind': 'ill-formed-result', 'what': res[2], 'resolution_nonpositive': neg_res, 'gen': gen, 'op': op,
+                'variant': variant}
+    return None
+
+
 def oracle(case, io):
     """C16's statement evaluated on what the implementation did."""
     resp = _response(case)
     gen = case.get('gen', '?')
     if io[0] == 'RESOURCE':
-        return None
+        if io[1] != 'timeout':
+            # a dead worker is neither "returns a NoteSequence" nor "raises MIDIConversionError": fail closed
+            return {'kind': 'worker-crash', 'detail': resp, 'gen': gen}
+        return None     # wall-clock limit: no exception escaped; recorded in evidence, not a violation
     probe = _STATS.get('probe')
     if probe is not None and probe.get('probe') != PROBE_EXPECT:
         return {'kind': 'protobuf-failure-modes-changed', 'got': probe.get('probe')}
     res = resp['res']
     inv = pm_inv_py(resp['pm']) if resp.get('parsed') else None
     neg_res = bool(resp.get('parsed') and resp['pm'][0] <= 0)
-    if case['op'] == 'pm' and not inv[2]:
-        return None     # outside the theorem's hypothesis; only model agreement is checked
-    if res[0] == 'EXC' and res[1] != 'MIDIConversionError':
-        return {'kind': 'foreign-exception', 'exception': res[1], 'message': res[2], 'gen': gen, 'op': case['op']}
-    if res[0] == 'OK' and res[2]:
-        return {'kind': 'ill-formed-result', 'what': res[2], 'resolution_nonpositive': neg_res, 'gen': gen, 'op': case['op']}
-    if case['op'] == 'bytes':
-        if resp.get('parsed'):
-            if resp.get('types'):
-                return {'kind': 'pm-attribute-type-unexpected', 'what': resp['types'], 'gen': gen}
-            if not inv[2]:
-                return {'kind': 'pm-invariant-violated', 'range_ok': inv[0], 'time_ok': inv[1], 'gen': gen}
-            if _res_canon(resp['obj']) != _res_canon(res):
-                mem = 'MemoryError' in (res[2] if res[0] == 'EXC' else '')
-                if not mem:
-                    return {'kind': 'bytes-vs-object-conversion-differ', 'gen': gen,
-                            'bytes': _res_canon(res)[:1] + ([res[1]] if res[0] == 'EXC' else []),
-                            'object': _res_canon(resp['obj'])[:1] + ([resp['obj'][1]] if resp['obj'][0] == 'EXC' else [])}
-        else:
-            if res[0] == 'OK' and 'MemoryError' not in resp.get('parse_exc', ''):
-                return {'kind': 'constructor-nondeterministic', 'gen': gen, 'parse_exc': resp.get('parse_exc')}
-        if 'file' in resp and _res_canon(resp['file']) != _res_canon(res):
+    if case['op'] == 'pm':
+        if not inv[2]:
+            return None     # outside the theorem's hypothesis; only model agreement is checked
+        return _statement(res, gen, 'pm', neg_res, 'object')
+    v = _statement(res, gen, 'bytes', neg_res, 'bytes')
+    if v:
+        return v
+    fres = resp.get('file')
+    if fres is not None and fres != 'same':
+        v = _statement(fres, gen, 'bytes', neg_res, 'file')
+        if v:
+            return v
+        if _res_canon(fres) != _res_canon(res):
             return {'kind': 'file-variant-differs', 'gen': gen,
-                    'bytes': res[:2] if res[0] == 'EXC' else ['OK'], 'file': resp['file'][:2] if resp['file'][0] == 'EXC' else ['OK']}
+                    'bytes': res[:2] if res[0] == 'EXC' else ['OK'], 'file': fres[:2] if fres[0] == 'EXC' else ['OK']}
+    if resp.get('parsed'):
+        if resp.get('types'):
+            return {'kind': 'pm-attribute-type-unexpected', 'what': resp['types'], 'gen': gen}
+        if not inv[2]:
+            return {'kind': 'pm-invariant-violated', 'range_ok': inv[0], 'time_ok': inv[1], 'gen': gen}
+        obj = resp['obj']
+        if obj != 'same' and _res_canon(obj) != _res_canon(res):
+            if not (res[0] == 'EXC' and 'MemoryError' in res[2]):
+                return {'kind': 'bytes-vs-object-conversion-differ', 'gen': gen,
+                        'bytes': res[:2] if res[0] == 'EXC' else ['OK'], 'object': obj[:2] if obj[0] == 'EXC' else ['OK']}
+    elif res[0] == 'OK' and 'MemoryError' not in resp.get('parse_exc', ''):
+        return {'kind': 'constructor-nondeterministic', 'gen': gen, 'parse_exc': resp.get('parse_exc')}
     return None
 
 
@@ -1147,6 +1204,11 @@ def nontrivial(case, io):
     return False
 
 
+def _shr(case):
+    g = case.get('gen', '?')
+    return g if g.endswith('-shrunk') else g + '-shrunk'
+
+
 def shrink(case):
     if case['op'] == 'bytes':
         b = bytes.fromhex(case['input']['hex'])
@@ -1156,7 +1218,7 @@ def shrink(case):
             for i in range(0, n, step):
                 c = b[:i] + b[i + step:]
                 if c != b:
-                    yield {'op': 'bytes', 'gen': case.get('gen', '?') + '-shrunk', 'input': {'hex': c.hex(), 'file': case['input'].get('file', False)}}
+                    yield {'op': 'bytes', 'gen': _shr(case), 'input': {'hex': c.hex(), 'file': case['input'].get('file', False)}}
             if step == 1:
                 break
             step //= 2
@@ -1176,7 +1238,7 @@ def shrink(case):
 
 
 def extra_evidence():
-    gens, outcomes, ctor_exc, resource, obs = {}, {}, {}, {}, {}
+    outcomes, ctor_exc, resource, obs = {}, {}, {}, {}
 
     def upd(name, v):
         lo, hi = obs.get(name, (v, v))
@@ -1193,7 +1255,7 @@ def extra_evidence():
         outcomes[key] = outcomes.get(key, 0) + 1
         if not r.get('parsed'):
             ctor_exc[r.get('parse_exc', '?')] = ctor_exc.get(r.get('parse_exc', '?'), 0) + 1
-        elif 'obj' in r:
+        elif 'obj' in r and r['obj'] is not None:
             parsed += 1
             pm = r['pm']
             upd('resolution', pm[0])
@@ -1214,6 +1276,7 @@ def extra_evidence():
                     upd('cc_number', c[1])
                     upd('cc_value', c[2])
     return {
+        'c16_cases_by_generator': dict(sorted(_GENS.items())),
         'c16_outcomes_by_exception_class': outcomes,
         'c16_constructor_exception_classes': ctor_exc,
         'c16_resource_cases': resource,
